@@ -1598,14 +1598,20 @@ def tagToXML(tag: str | bytes) -> str:
     if re.match("[A-Za-z_][A-Za-z_0-9]* *$", tag):
         return tag.strip()
     else:
-        return tagToIdentifier(tag)
+        # Escape all four characters (trailing spaces included) so that the
+        # result is always 8 or 9 characters long and can't be mistaken for
+        # a plain tag by xmlToTag().
+        ident = "".join(_escapechar(c) for c in tag)
+        if re.match("[0-9]", ident):
+            ident = "_" + ident
+        return ident
 
 
 def xmlToTag(tag: str) -> str:
     """The opposite of tagToXML()"""
     if tag == "OS_2":
         return Tag("OS/2")
-    if len(tag) == 8:
+    if len(tag) in (8, 9):
         return identifierToTag(tag)
     else:
         return Tag(tag + " " * (4 - len(tag)))
